@@ -284,36 +284,66 @@ def has_alias_push(ops):
     return any(n == 'pushAt' for n, a in ops)
 
 
-def small_ever_dynamic(ops):
-    """some small_vector object is in heap mode at some point: built with N >= DIM or more than DIM values, resized above
-    DIM, pushed at size == DIM, or copied / assigned from such an object"""
+def small_trace(ops):
+    """reference run of a small_vector history: yields (name, args, reference state before the op, heap-mode flags before
+    the op, applicable).  An object is in heap mode when built with N >= DIM or more than DIM values, resized above DIM,
+    pushed (push / pushAt) at size == DIM, or copied / assigned from such an object"""
     dyn = [False] * NSLOTS
     for n, a, st in sizes_along(ops, 'small'):
         s = a[0]
         o = st[s]
+        before = list(dyn)
+        ok = True
         if o is None:
             if n == 'ctorN': dyn[s] = a[1] >= SMALL_DIM
             elif n == 'ctorV': dyn[s] = len(a) - 1 > SMALL_DIM
             elif n == 'ctor': dyn[s] = False
             elif n == 'copy' and st[a[1]] is not None: dyn[s] = dyn[a[1]]
+            else: ok = False
         else:
-            if n == 'resize' and a[1] > SMALL_DIM: dyn[s] = True
-            elif n == 'push' and len(o) == SMALL_DIM: dyn[s] = True
-            elif n == 'assign' and st[a[1]] is not None: dyn[s] = dyn[a[1]]
+            if n == 'resize':
+                if a[1] > SMALL_DIM: dyn[s] = True
+            elif n == 'push':
+                if len(o) == SMALL_DIM: dyn[s] = True
+            elif n == 'pushAt':
+                if a[1] >= len(o): ok = False
+                elif len(o) == SMALL_DIM: dyn[s] = True
+            elif n == 'assign':
+                if st[a[1]] is not None: dyn[s] = dyn[a[1]]
+                else: ok = False
             elif n == 'destroy': dyn[s] = False
-        if any(dyn):
-            return True
+            elif n in ('write', 'read'): ok = a[1] < len(o)
+            else: ok = False
+        yield n, a, st, before, list(dyn), ok
+
+
+def small_ever_dynamic(ops):
+    """some small_vector object is in heap mode at some point"""
+    return any(any(after) for n, a, st, before, after, ok in small_trace(ops))
+
+
+def small_alias_push_at_dim(ops):
+    """`x.push_back(x[i])` is applied to a small_vector holding exactly DIM elements"""
+    return any(ok and n == 'pushAt' and len(st[a[0]]) == SMALL_DIM for n, a, st, before, after, ok in small_trace(ops))
+
+
+def small_mixed_mode(ops):
+    """a copy construction / assignment between two small_vector objects one of which is in heap mode"""
+    for n, a, st, before, after, ok in small_trace(ops):
+        if ok and n == 'copy' and before[a[1]]: return True
+        if ok and n == 'assign' and a[0] != a[1] and before[a[0]] != before[a[1]]: return True
     return False
 
 
 def in_domain(kind, ops):
     """(contents, ledger): the history lies in the hypothesis domain of the Lean refinement theorem of its kind resp. of
     the ledger theorems.  After the fix: commits vector and static_vector have no excluded operation; small_vector
-    refines std::vector on every history of its alphabet, its ledger is only clean while every object stays static."""
+    refines std::vector on every history in which push_back(x[i]) is never applied at size() == DIM, its ledger is only
+    clean (and, by smallVector_static_no_heap, untouched) while every object stays static."""
     if kind in ('vec', 'svec', 'arr', 'tuple', 'tuplev2'):
         return (True, True)
     if kind == 'small':
-        return (not has_alias_push(ops), not small_ever_dynamic(ops))
+        return (not small_alias_push_at_dim(ops), not small_ever_dynamic(ops))
     return (False, False)
 
 
@@ -347,24 +377,7 @@ def _pred(kind, f, aspect):
 
 def small_copy_from_dynamic(ops):
     """a small_vector is copy-constructed from an object that is in heap mode"""
-    dyn = [False] * NSLOTS
-    for n, a, st in sizes_along(ops, 'small'):
-        s = a[0]
-        o = st[s]
-        if o is None:
-            if n == 'ctorN': dyn[s] = a[1] >= SMALL_DIM
-            elif n == 'ctorV': dyn[s] = len(a) - 1 > SMALL_DIM
-            elif n == 'ctor': dyn[s] = False
-            elif n == 'copy' and st[a[1]] is not None:
-                if dyn[a[1]]:
-                    return True
-                dyn[s] = False
-        else:
-            if n == 'resize' and a[1] > SMALL_DIM: dyn[s] = True
-            elif n == 'push' and len(o) == SMALL_DIM: dyn[s] = True
-            elif n == 'assign' and st[a[1]] is not None: dyn[s] = dyn[a[1]]
-            elif n == 'destroy': dyn[s] = False
-    return False
+    return any(ok and n == 'copy' and before[a[1]] for n, a, st, before, after, ok in small_trace(ops))
 
 
 def _poison_pred(case):
@@ -375,6 +388,7 @@ def _poison_pred(case):
 KNOWN_PREDICATES = {
     'small_ever_dynamic': _pred('small', small_ever_dynamic, 'ledger'),
     'small_copy_dynamic_raw_storage': _poison_pred,
+    'small_alias_push_at_dim': _pred('small', small_alias_push_at_dim, 'contents'),
     'maybe_nt_assign_unconstructed': _lpred('maybe', 'assign'),
     'maybe_nt_never_destroyed': _lpred('maybe', 'held'),
     'either_nt_construct_over_live': _lpred('either', 'over'),
@@ -386,13 +400,13 @@ KNOWN_PREDICATES = {
 # generators
 # ----------------------------------------------------------------------------------------------
 
-def live_ops(s, size, other_live, t, resizes, two):
+def live_ops(s, size, other_live, t, resizes, two, pushat_last=False):
     """operations applicable to live slot s (reduced alphabet, values are t-derived so every write is recognisable)"""
     v = 10 * (t + 1) + s
     ops = [('push', [s, v]), ('destroy', [s]), ('assign', [s, s])]
     ops += [('resize', [s, n]) for n in resizes]
     if size > 0:
-        ops += [('write', [s, 0, v]), ('pushAt', [s, 0])]
+        ops += [('write', [s, 0, v]), ('pushAt', [s, size - 1 if pushat_last else 0])]
         if size > 1:
             ops += [('write', [s, size - 1, v])]
     if two and other_live:
@@ -408,9 +422,13 @@ def dead_ops(s, other_live, t, sized, variadic):
     return ops
 
 
-def enum_histories(L, two, kind='vec', resizes=(0, 1, 3, 6), sized=(0, 2, 5), variadic=(3,), nopush=False, nopushat=False):
+def enum_histories(L, two, kind='vec', resizes=(0, 1, 3, 6), sized=(0, 2, 5), variadic=(3,), nopush=False, nopushat=False,
+                   prefix=(), pushat_last=False):
     """all histories of length exactly L over the reduced alphabet in which every operation is applicable
-    (prefixes are observed too: the state is printed after every step)"""
+    (prefixes are observed too: the state is printed after every step); `prefix`: fixed operations run first
+    (the L enumerated operations follow)"""
+    L = L + len(prefix)
+
     def rec(ref, t, acc):
         if t == L:
             yield list(acc)
@@ -424,7 +442,7 @@ def enum_histories(L, two, kind='vec', resizes=(0, 1, 3, 6), sized=(0, 2, 5), va
                     continue
                 cands += dead_ops(s, other and two, t, sized, variadic)
             else:
-                cands += live_ops(s, len(o), other, t, resizes, two)
+                cands += live_ops(s, len(o), other, t, resizes, two, pushat_last)
         if nopush:
             cands = [c for c in cands if c[0] not in ('push', 'pushAt', 'resize')]
         if nopushat:
@@ -436,7 +454,10 @@ def enum_histories(L, two, kind='vec', resizes=(0, 1, 3, 6), sized=(0, 2, 5), va
             acc.append((n, a))
             yield from rec(r2, t + 1, acc)
             acc.pop()
-    yield from rec(make_ref(kind), 0, [])
+    ref0 = make_ref(kind)
+    for n, a in prefix:
+        ref0.apply(n, a)
+    yield from rec(ref0, len(prefix), list(prefix))
 
 
 def rand_history(rng, L, cap=None, maxn=9, vmax=5):
@@ -471,8 +492,9 @@ def rand_history(rng, L, cap=None, maxn=9, vmax=5):
     return ops
 
 
-def rand_domain_history(rng, L, cap=None, vmax=5, maxlen=None):
-    """random history inside the theorem domain: no sized construction, no growing resize, no aliasing push"""
+def rand_domain_history(rng, L, cap=None, vmax=5, maxlen=None, pushat=False):
+    """random history inside the theorem domain: no sized construction, no growing resize; aliasing pushes only with
+    `pushat` (and then only below `maxlen`)"""
     ref = RefSeq(cap)
     ops = []
     for t in range(L):
@@ -495,6 +517,7 @@ def rand_domain_history(rng, L, cap=None, vmax=5, maxlen=None):
             elif c < 0.72 and n: op = ('read', [s, rng.randrange(n)])
             elif c < 0.87: op = ('assign', [s, rng.choice([s, 1 - s])])
             elif c < 0.91: op = ('destroy', [s])
+            elif pushat and n and (maxlen is None or n < maxlen): op = ('pushAt', [s, rng.randrange(n)])
             elif maxlen is None or n < maxlen: op = ('push', [s, v])
             else: op = ('resize', [s, rng.randrange(0, n + 1)])
         ref.apply(*op)
@@ -671,19 +694,26 @@ def gen(tier, rng):
     # nmtools::small_vector<T,4> over utl::either<utl::static_vector, utl::vector> ------------------
     for L in ([5] if quick else [5, 6]):
         n1 = 0
-        for ops in enum_histories(L, two=False, kind='small', resizes=(0, 1, 3, 4, 6), sized=(0, 2, 4, 6), variadic=(3, 5), nopushat=True):
+        for ops in enum_histories(L, two=False, kind='small', resizes=(0, 1, 3, 4, 6), sized=(0, 2, 4, 6), variadic=(3, 5), pushat_last=True):
             n1 += 1
             if L == 5 or n1 % 3 == 0:
                 yield from cases_for('small', 'int', ops, ['exhaustive-1obj' if L == 5 else 'sampled-1obj'])
     n2 = 0
-    for ops in enum_histories(4 if quick else 5, two=True, kind='small', resizes=(0, 2, 5), sized=(3, 5), variadic=(5,), nopushat=True):
+    for ops in enum_histories(4 if quick else 5, two=True, kind='small', resizes=(0, 2, 5), sized=(3, 5), variadic=(5,), pushat_last=True):
         n2 += 1
         if quick or n2 % 4 == 0:
             yield from cases_for('small', 'double' if n2 % 2 else 'int', ops, ['exhaustive-2obj' if quick else 'sampled-2obj'])
     for k in range(300 if quick else 4000):
         L = rng.choice([6, 7, 12, 30, 80, 200])
-        yield from cases_for('small', rng.choice(['int', 'double']), [o for o in rand_history(rng, L, maxn=7, vmax=6) if o[0] != 'pushAt'], ['random'])
-        yield from cases_for('small', rng.choice(['int', 'double']), rand_domain_history(rng, L, vmax=4, maxlen=SMALL_DIM), ['random-domain'])
+        yield from cases_for('small', rng.choice(['int', 'double']), rand_history(rng, L, maxn=7, vmax=6), ['random'])
+        yield from cases_for('small', rng.choice(['int', 'double']), rand_domain_history(rng, L, vmax=4, maxlen=SMALL_DIM, pushat=True), ['random-domain'])
+    # copy / assignment between a static-mode and a heap-mode small_vector (both directions), then every continuation
+    for pre in MIXED_PREFIXES:
+        n2 = 0
+        for ops in enum_histories(3 if quick else 4, two=True, kind='small', resizes=(1, 5), sized=(2, 5), variadic=(), prefix=parse_ops(pre), pushat_last=True):
+            n2 += 1
+            if small_mixed_mode(ops):
+                yield from cases_for('small', 'double' if n2 % 2 else 'int', ops, ['mixed-mode-2obj'])
     # utl::array<T,3> -----------------------------------------------------------------------------
     n2 = 0
     for ops in enum_histories(4 if quick else 5, two=True, kind='arr', resizes=(), sized=(), variadic=(2, 3), nopush=True):
@@ -695,6 +725,14 @@ def gen(tier, rng):
         n2 += 1
         yield from cases_for('tuple' if n2 % 2 else 'tuplev2', ('int', 'tracked', 'double')[n2 % 3], ops, ['exhaustive-2obj'])
 
+
+# slot 0 static / slot 1 heap, and the reverse; sizes below, at and above DIM
+MIXED_PREFIXES = [
+    'ctorV:0:1:2:3;ctorN:1:5',
+    'ctorN:0:6;ctorV:1:7:8',
+    'ctorV:0:1:2:3:4;ctorV:1:5:6:7:8:9',
+    'ctorN:0:4;ctor:1',
+]
 
 POISON_WITNESSES = [
     'ctorN:0:6;copy:1:0',
@@ -720,8 +758,12 @@ def gen_san(tier, rng):
         yield san_case(kind, elem, parse_ops(ops), ['witness'])
     for ops in enum_histories(4 if quick else 5, two=False):
         yield san_case('vec', 'int', ops, ['exhaustive-1obj'])
-    for ops in enum_histories(4 if quick else 5, two=False, kind='small', resizes=(0, 3, 4, 6), sized=(2, 6), variadic=(3, 5), nopushat=True):
+    for ops in enum_histories(4 if quick else 5, two=False, kind='small', resizes=(0, 3, 4, 6), sized=(2, 6), variadic=(3, 5), pushat_last=True):
         yield san_case('small', 'int', ops, ['exhaustive-1obj'])
+    for pre in MIXED_PREFIXES:
+        for ops in enum_histories(2 if quick else 3, two=True, kind='small', resizes=(1, 5), sized=(2, 5), variadic=(), prefix=parse_ops(pre), pushat_last=True):
+            if small_mixed_mode(ops):
+                yield san_case('small', 'int', ops, ['mixed-mode-2obj'])
     for ops in enum_histories(4, two=False, kind='svec', resizes=(0, 1, 4, 6), sized=(2, 7), variadic=(2, 4)):
         yield san_case('svec', 'int', ops, ['exhaustive-1obj'])
     for k in range(150 if quick else 2000):
@@ -730,7 +772,7 @@ def gen_san(tier, rng):
         yield san_case('vec', e, rand_history(rng, L), ['random'])
         yield san_case('vec', e, rand_domain_history(rng, L), ['random-domain'])
         yield san_case('svec', e, rand_history(rng, L, cap=SVEC_CAP, maxn=7, vmax=4), ['random'])
-        yield san_case('small', e, [o for o in rand_history(rng, L, maxn=7, vmax=6) if o[0] != 'pushAt'], ['random'])
+        yield san_case('small', e, rand_history(rng, L, maxn=7, vmax=6), ['random'])
         yield san_case('small', e, rand_domain_history(rng, L, vmax=4, maxlen=SMALL_DIM), ['random-domain'])
         for kind in ('maybe', 'either'):
             yield san_case(kind, rng.choice(['int', 'double', 'tracked']), rand_ehistory(rng, L, kind), ['random'])
@@ -745,6 +787,10 @@ WITNESSES = [
     ('svec', 'int', 'ctorN:0:7'),
     ('small', 'int', 'ctorN:0:5'),
     ('small', 'int', 'ctor:0;push:0:1;push:0:2;push:0:3;push:0:4;push:0:5;destroy:0'),
+    ('small', 'int', 'ctorV:0:10:11:12:13;pushAt:0:2'),
+    ('small', 'int', 'ctorN:0:4;write:0:0:7;pushAt:0:0'),
+    ('small', 'int', 'ctorN:0:6;resize:0:4;write:0:1:9;pushAt:0:1'),      # spare capacity: no defect
+    ('small', 'int', 'ctorV:0:10:11:12;pushAt:0:1;push:0:5;pushAt:0:4'),   # never at size == DIM: no defect
     ('svec', 'int', 'ctor:0;push:0:1;push:0:2;push:0:3;resize:0:1;resize:0:3'),
 ]
 
